@@ -160,7 +160,7 @@ def oracle_c07(case, out, d):
     if out[0] == 'internal':
         return f'Pool.run ended with an internal error ({out[1]})'
     if out[0] == 'livelock':
-        return 'Pool.run does not terminate (more than 3000 enqueue attempts, or spinning for 1 s without any observable step)'
+        return 'Pool.run does not terminate (more than 3000 enqueue attempts, or 2 s of CPU time / 60 s of wall clock inside one scripted run that normally takes a millisecond)'
     if out[0] == 'none':
         return 'Pool.run returned None (neither a result list nor PoolError)'
     if case['retry'] and out[0] == 'return' and case.get('rr', True):
